@@ -41,6 +41,8 @@ def shards(tier, seed):
            for _ in range(14)]
     out.append({'kind': 'cross', 'count': 25 if tier == 'quick' else 600, 'budget_s': budget, 'modules': CROSS[:5]})
     out.append({'kind': 'cross', 'count': 25 if tier == 'quick' else 600, 'budget_s': budget, 'modules': CROSS[5:]})
+    out.append({'kind': 'deep', 'count': 3 if tier == 'quick' else 30, 'budget_s': budget,
+                'depths': netgen.DEEP_QUICK if tier == 'quick' else netgen.DEEP_THOROUGH})
     _out = out
     if tier == 'thorough':
         _out.append({'kind': 'suite', 'select': ['tests/cirbo/core', 'tests/cirbo/circuits_db', 'tests/cirbo/minimization', 'tests/cirbo/sat'], 'budget_s': 900})
@@ -447,7 +449,7 @@ def run_history(case, ctx):
         hist[-1] = [desc, outcome]
         ctx.count('op:%s:%s' % (opname, 'ok' if outcome == 'ok' else 'raised'))
         ctx.mon(opname, 'driven')
-        if c.size > 60:
+        if c.size > 60 and not case.get('big'):
             break
         if len(ctx.violations) + sum(ctx._viol_count.values()) != nviol:
             ctx.count('history_stopped_after_violation')
@@ -459,6 +461,10 @@ def run_history(case, ctx):
 
 
 def gen_case(rng, spec):
+    if spec.get('kind') == 'deep':   # histories that start from a circuit with a long dependency chain
+        return {'kind': 'history', 'shape': 'deep', 'net': netgen.deep_description(rng, spec['depths']),
+                'rseed': rng.getrandbits(32), 'shuffle': False, 'length': rng.randint(3, 8), 'start_block': rng.random() < 0.3,
+                'big': True}
     shape = rng.choice(netgen.SHAPES)
     net = netgen.rand_net(rng, shape=shape, max_in=4, max_g=8, max_arity=4)
     return {'kind': 'history', 'shape': shape, 'net': netgen.describe(net), 'rseed': rng.getrandbits(32),
